@@ -17,7 +17,7 @@ BUDGET = {"quick": 8000, "thorough": 2000000}
 SHRINK = {"quick": True, "thorough": True}
 RULE = (
     "Hypothesis draws (T, p, T_pc, p_pc) either directly on the rectangle 1.05 <= T_r <= 3, 0 < p_r <= 30 "
-    "(uniform, log-uniform down to 1e-4, the corners, extra weight on T_r < 1.4 and p_r > 10) or from gas gravity "
+    "(uniform, log-uniform down to 1e-4, one case in eight log-uniform on 1e-13..1e-4 'towards zero pressure', the corners, extra weight on T_r < 1.4 and p_r > 10) or from gas gravity "
     "0.55..1.2, temperature 80..400 F and pressure 10..14000 psia through the Sutton hydrocarbon polynomials "
     "(the default build_pvt_gas range). Each case evaluates z_factor_DAK at p and at p(1+1e-4) and "
     "z_factor_hallyarbrough at (p_r, T_r) under a line-event cap. Non-trivial = p_r > 0.5 (Z differs from 1 by "
@@ -52,6 +52,10 @@ def strategy_(draw):
             ppc = 671.1 - 14 * sg - 34.3 * sg**2
         return {"src": "sutton", "T": T, "p": p, "tpc": tpc - 459.67, "ppc": ppc, "T_form": draw(forms.scalar_form()), "p_form": draw(forms.scalar_form())}
     s = draw(gens.gas_state())
+    if draw(st.integers(0, 7)) == 0:
+        # "tends to 1 as pressure tends to 0": the quantifier is 0 < p_r, so go far below any table pressure
+        s = dict(s, p=draw(gens.loguniform(1e-13, 1e-4)) * s["ppc"])
+        return {"src": "towards-zero-pressure", "T": s["T"], "p": s["p"], "tpc": s["tpc"], "ppc": s["ppc"], "T_form": draw(forms.scalar_form()), "p_form": draw(forms.scalar_form(allow_int=False))}
     return {"src": "rectangle", "T": s["T"], "p": s["p"], "tpc": s["tpc"], "ppc": s["ppc"], "T_form": draw(forms.scalar_form()), "p_form": draw(forms.scalar_form())}
 
 
@@ -120,7 +124,7 @@ def check_case(case) -> Result:
         return res
     res.labels["src"] = case["src"]
     res.labels["tr_band"] = "1.05-1.2" if tr < 1.2 else ("1.2-1.5" if tr < 1.5 else ("1.5-2" if tr < 2 else "2-3"))
-    res.labels["pr_band"] = "<0.01" if pr < 1e-2 else ("0.01-0.5" if pr < 0.5 else ("0.5-5" if pr < 5 else ("5-16" if pr < 16 else "16-30")))
+    res.labels["pr_band"] = "<1e-6" if pr < 1e-6 else "<0.01" if pr < 1e-2 else ("0.01-0.5" if pr < 0.5 else ("0.5-5" if pr < 5 else ("5-16" if pr < 16 else "16-30")))
     res.nontrivial = pr > 0.5
 
     z = float(lib("z_factor_DAK", G.z_factor_DAK, T, p, tpc, ppc))
@@ -169,7 +173,7 @@ def check_case(case) -> Result:
     # between (a fine temperature sweep, a finite-difference dZ/dT, another gas) must not change it, and the value on
     # the neighbouring isotherm must be the root for ITS temperature
     dT = (T + 459.67) * 2e-6
-    lib("z_factor_DAK", history_independent, res, "C06/independent-of-call-history", G.z_factor_DAK, (T, p, tpc, ppc), [(T + dT, p, tpc, ppc), (T - dT, 0.5 * p, tpc, ppc), (T, p, tpc + 1e-4, ppc)], "z_factor_DAK")
+    lib("z_factor_DAK", history_independent, res, "C06/independent-of-call-history", G.z_factor_DAK, (T, p, tpc, ppc), [(T + dT, p, tpc, ppc), (T - dT, 0.5 * p, tpc, ppc), (T, p, tpc + 1e-4, ppc)], "z_factor_DAK", 1e-10)
     z_first = float(lib("z_factor_DAK", G.z_factor_DAK, T, p, tpc, ppc))
     z_near = float(lib("z_factor_DAK", G.z_factor_DAK, T + dT, p, tpc, ppc))
     tr_near = (T + dT + 459.67) / (tpc + 459.67)
@@ -178,7 +182,7 @@ def check_case(case) -> Result:
         res.check("C06/root-on-neighbouring-isotherm", g_near, 1e-8, f"Z={z_near!r} at T_r={tr_near!r} (evaluated right after T_r={tr!r}), p_r={pr!r}: not a root of the equation of state at its own temperature (Z on the first isotherm {z_first!r});")
     # (iv) low-pressure limit
     if pr <= 1e-2:
-        res.check("C06/low-pressure-limit", abs(z - 1.0), 0.6 * pr, f"|Z-1| with Z={z!r} at p_r={pr!r} T_r={tr!r};")
+        res.check("C06/low-pressure-limit", abs(z - 1.0), 0.6 * pr + 1e-12, f"|Z-1| with Z={z!r} at p_r={pr!r} T_r={tr!r};")
     # (v) Hall-Yarbrough
     try:
         zhy, _n = call_with_line_cap(G.z_factor_hallyarbrough, 200_000, pr, tr)
